@@ -18,6 +18,9 @@ St(dd) == ToSet(dd.st)
 Gone(dd) == dd.cap = "none" /\ dd.st = <<>> /\ dd.heads = <<>> /\ dd.bykey = <<>> /\ dd.peers = <<>>
             /\ dd.pol = DefaultPolicy
 HeadsFn(hs) == [a \in {hs[i].a : i \in 1..Len(hs)} |-> hs[CHOOSE i \in 1..Len(hs) : hs[i].a = a].ts]
+HeadsOk(dd) ==   \* one head per author, the greatest timestamp among the author's records held (C13)
+  /\ \A i, j \in 1..Len(dd.heads) : dd.heads[i].a = dd.heads[j].a => i = j
+  /\ HeadsFn(dd.heads) = HeadsOf(St(dd))
 Derived(dd) ==   \* derived tables agree with the records (C18 / C13)
   /\ \A i, j \in 1..Len(dd.heads) : dd.heads[i].a = dd.heads[j].a => i = j
   /\ HeadsFn(dd.heads) = HeadsOf(St(dd))
@@ -42,6 +45,7 @@ Sees(f) == CASE Prop = "C07" -> f \in {"cap", "st"}
              [] Prop = "C16" -> TRUE
              [] Prop = "C17" -> f \in {"peers", "cap"}
              [] Prop = "C18" -> f \in {"st"}
+             [] Prop = "C13" -> FALSE          \* only the author heads against the records, after every call
 Fields == {f \in All : Sees(f)}
 
 Frame(r, d) == \A o \in 1..N : o # d => Same(docs[o], r.docs[o], IF Prop = "C16" THEN All ELSE Fields)
@@ -95,6 +99,7 @@ Global(r) ==
   /\ Prop \in {"C16"} => ToSet(r.hashes) = UNION {{e.h : e \in St(r.docs[o])} : o \in 1..N}
   /\ (Prop = "C18" /\ r.ev = "DropDerived") => \A o \in 1..N : Derived(r.docs[o])
   /\ Prop = "C17" => \A o \in 1..N : Len(r.docs[o].peers) <= PeerCap
+  /\ Prop = "C13" => \A o \in 1..N : HeadsOk(r.docs[o])
 
 Check(r) ==
   CASE r.ev \in {"Reopen", "DropDerived"} ->
